@@ -23,8 +23,10 @@ package hdkeychain
 
 //@ func hdkeychain.NewExtendedKey
 //@   ensures result != nil && fresh(result) && result.isPrivate == isPrivate && result.depth == depth && result.childNum == childNum
-//@   ensures sameobj(result.key, key) && len(result.key) == len(key) && sameobj(result.chainCode, chainCode) && len(result.chainCode) == len(chainCode)
-//@   ensures sameobj(result.parentFP, parentFP) && len(result.parentFP) == len(parentFP) && sameobj(result.version, version) && len(result.version) == len(version) && len(result.pubKey) == 0
+//@   ensures sameobj(result.key, key) && result.key.off == key.off && len(result.key) == len(key)
+//@   ensures sameobj(result.chainCode, chainCode) && result.chainCode.off == chainCode.off && len(result.chainCode) == len(chainCode)
+//@   ensures sameobj(result.parentFP, parentFP) && result.parentFP.off == parentFP.off && len(result.parentFP) == len(parentFP)
+//@   ensures sameobj(result.version, version) && result.version.off == version.off && len(result.version) == len(version) && len(result.pubKey) == 0
 //@   modifies nothing
 
 //@ func hdkeychain.(*ExtendedKey).pubKeyBytes
@@ -53,3 +55,85 @@ package hdkeychain
 //@   ensures old(k.isPrivate) && err == nil ==> len(result0.chainCode) == len(k.chainCode) && forall j :: 0 <= j && j < len(k.chainCode) ==> result0.chainCode[j] == k.chainCode[j]
 //@   ensures old(k.isPrivate) && err == nil ==> len(result0.parentFP) == len(k.parentFP) && forall j :: 0 <= j && j < len(k.parentFP) ==> result0.parentFP[j] == k.parentFP[j]
 //@   modifies k.pubKey
+
+//@ func hdkeychain.cloneBytes
+//@   ensures len(result) == len(b) && fresh(result) && unique(result) && forall j :: 0 <= j && j < len(b) ==> result[j] == b[j]
+//@   modifies nothing
+
+//@ func hdkeychain.(*ExtendedKey).Child
+//@   requires len(k.key) <= 33 && (k.isPrivate ==> len(k.key) <= 32) && (len(k.pubKey) == 0 || len(k.pubKey) == 33)
+//@   ensures old(k.depth) == 255 ==> err == ErrDeriveBeyondMaxDepth && result0 == nil
+//@   ensures old(k.depth) != 255 && !old(k.isPrivate) && i >= 2147483648 ==> err == ErrDeriveHardFromPublic && result0 == nil
+//@   ensures err == nil ==> result0 != nil && fresh(result0) && result0.depth == old(k.depth) + 1 && result0.childNum == i && result0.isPrivate == old(k.isPrivate)
+//@   ensures err == nil ==> len(result0.chainCode) == 32 && len(result0.parentFP) == 4 && fresh(result0.key) && fresh(result0.chainCode) && fresh(result0.parentFP)
+//@   ensures err == nil && old(k.isPrivate) ==> len(result0.key) == 32
+//@   ensures err == nil && !old(k.isPrivate) ==> len(result0.key) == 33
+//@   ensures err == nil ==> sameobj(result0.version, k.version) && len(result0.version) == len(k.version)
+//@   ensures err != nil ==> result0 == nil
+//@   modifies k.pubKey
+//@   assert after PutUint32#1: len(data) == 37 && data[33] == u8(i >> 24) && data[34] == u8(i >> 16) && data[35] == u8(i >> 8) && data[36] == u8(i)
+//@   assert after PutUint32#1: i >= 2147483648 ==> data[0] == 0 && forall j :: 0 <= j && j < len(k.key) ==> data[1 + j] == k.key[j]
+
+//@ func hdkeychain.NewMaster
+//@   requires net != nil
+//@   ensures (len(seed) < 16 || len(seed) > 64) ==> err == ErrInvalidSeedLen && result0 == nil
+//@   ensures err == nil ==> 16 <= len(seed) && len(seed) <= 64 && result0 != nil && fresh(result0) && result0.isPrivate && result0.depth == 0 && result0.childNum == 0
+//@   ensures err == nil ==> len(result0.key) == 32 && len(result0.chainCode) == 32 && len(result0.parentFP) == 4 && len(result0.version) == 4
+//@   ensures err == nil ==> fresh(result0.key) && fresh(result0.chainCode) && fresh(result0.parentFP)
+//@   ensures err == nil ==> forall j :: 0 <= j && j < 4 ==> result0.parentFP[j] == 0
+//@   modifies nothing
+
+//@ func hdkeychain.paddedAppend
+//@   requires size <= 64 && disjoint(dst, src)
+//@   ensures len(result) == len(dst) + (int(size) > len(src) ? int(size) - len(src) : 0) + len(src)
+//@   ensures forall j :: 0 <= j && j < len(dst) ==> result[j] == old(dst[j])
+//@   ensures forall j :: len(dst) <= j && j < len(result) - len(src) ==> result[j] == 0
+//@   ensures forall j :: 0 <= j && j < len(src) ==> result[len(result) - len(src) + j] == src[j]
+//@   ensures cap(dst) >= len(dst) + (int(size) > len(src) ? int(size) - len(src) : 0) + len(src) ==> sameobj(result, dst) && result.off == dst.off && cap(result) == cap(dst)
+//@   ensures sameobj(result, dst) || fresh(result)
+//@   modifies *dst
+//@   loop 1 invariant 0 <= i && len(dst) == len(dst0) + i && i <= (int(size) > len(src) ? int(size) - len(src) : 0)
+//@   loop 1 invariant forall j :: 0 <= j && j < len(dst0) ==> dst[j] == old(dst0[j])
+//@   loop 1 invariant forall j :: len(dst0) <= j && j < len(dst) ==> dst[j] == 0
+//@   loop 1 invariant cap(dst0) >= len(dst0) + (int(size) > len(src) ? int(size) - len(src) : 0) + len(src) ==> sameobj(dst, dst0) && dst.off == dst0.off && cap(dst) == cap(dst0)
+//@   loop 1 invariant sameobj(dst, dst0) || fresh(dst)
+//@   loop 1 invariant forall j :: 0 <= j && j < len(src) ==> src[j] == old(src[j])
+//@   loop 1 decreases int(size) - len(src) - i
+
+//@ func hdkeychain.(*ExtendedKey).ParentFingerprint
+//@   requires len(k.parentFP) >= 4
+//@   ensures result == (u32(k.parentFP[0]) << 24) | (u32(k.parentFP[1]) << 16) | (u32(k.parentFP[2]) << 8) | u32(k.parentFP[3])
+//@   modifies nothing
+
+//@ func hdkeychain.(*ExtendedKey).ECPrivKey
+//@   ensures !old(k.isPrivate) ==> err == ErrNotPrivExtKey && result0 == nil
+//@   modifies nothing
+
+//@ func hdkeychain.GenerateSeed
+//@   ensures (length < 16 || length > 64) ==> err == ErrInvalidSeedLen
+//@   ensures err == nil ==> len(result0) == int(length)
+//@   modifies nothing
+
+//@ func hdkeychain.(*ExtendedKey).String
+//@   requires len(k.key) == 0 || (len(k.version) == 4 && len(k.parentFP) == 4 && len(k.chainCode) == 32 && (k.isPrivate ==> len(k.key) <= 32) && (!k.isPrivate ==> len(k.key) == 33))
+//@   modifies k.pubKey
+//@   assert after append#1: len($ret) == 4 && cap($ret) == 82 && fresh($ret) && (forall j :: 0 <= j && j < 4 ==> $ret[j] == k.version[j])
+//@   assert after append#2: len($ret) == 5 && cap($ret) == 82 && fresh($ret) && (forall j :: 0 <= j && j < 4 ==> $ret[j] == k.version[j]) && $ret[4] == k.depth
+//@   assert after append#3: len($ret) == 9 && cap($ret) == 82 && fresh($ret) && (forall j :: 0 <= j && j < 4 ==> $ret[j] == k.version[j]) && $ret[4] == k.depth && (forall j :: 0 <= j && j < 4 ==> $ret[5 + j] == k.parentFP[j])
+//@   assert after append#4: len($ret) == 13 && cap($ret) == 82 && fresh($ret) && (forall j :: 0 <= j && j < 4 ==> $ret[j] == k.version[j]) && $ret[4] == k.depth && (forall j :: 0 <= j && j < 4 ==> $ret[5 + j] == k.parentFP[j]) && $ret[9] == u8(k.childNum >> 24) && $ret[10] == u8(k.childNum >> 16) && $ret[11] == u8(k.childNum >> 8) && $ret[12] == u8(k.childNum)
+//@   assert after append#5: len($ret) == 45 && cap($ret) == 82 && fresh($ret) && (forall j :: 0 <= j && j < 4 ==> $ret[j] == k.version[j]) && $ret[4] == k.depth && (forall j :: 0 <= j && j < 4 ==> $ret[5 + j] == k.parentFP[j]) && $ret[9] == u8(k.childNum >> 24) && $ret[10] == u8(k.childNum >> 16) && $ret[11] == u8(k.childNum >> 8) && $ret[12] == u8(k.childNum) && (forall j :: 0 <= j && j < 32 ==> $ret[13 + j] == k.chainCode[j])
+//@   assert after DoubleHashB#1: len($arg0) == 78 && sameobj($arg0, serializedBytes) && $arg0.off == serializedBytes.off && (forall j :: 0 <= j && j < 4 ==> serializedBytes[j] == k.version[j]) && serializedBytes[4] == k.depth && (forall j :: 0 <= j && j < 4 ==> serializedBytes[5 + j] == k.parentFP[j]) && serializedBytes[9] == u8(k.childNum >> 24) && serializedBytes[10] == u8(k.childNum >> 16) && serializedBytes[11] == u8(k.childNum >> 8) && serializedBytes[12] == u8(k.childNum) && (forall j :: 0 <= j && j < 32 ==> serializedBytes[13 + j] == k.chainCode[j])
+//@   assert after DoubleHashB#1: k.isPrivate ==> serializedBytes[45] == 0 && forall j :: 0 <= j && j < len(k.key) ==> serializedBytes[78 - len(k.key) + j] == k.key[j]
+//@   assert after DoubleHashB#1: k.isPrivate ==> forall j :: 46 <= j && j < 78 - len(k.key) ==> serializedBytes[j] == 0
+//@   assert after DoubleHashB#1: !k.isPrivate ==> forall j :: 0 <= j && j < 33 ==> serializedBytes[45 + j] == k.key[j]
+//@   assert after Encode#1: len($arg0) == 82 && forall j :: 0 <= j && j < 4 ==> $arg0[78 + j] == serializedBytes[78 + j]
+
+//@ func hdkeychain.NewKeyFromString
+//@   ensures err == nil ==> result0 != nil && fresh(result0) && len(result0.version) == 4 && len(result0.parentFP) == 4 && len(result0.chainCode) == 32
+//@   ensures err == nil ==> (result0.isPrivate ==> len(result0.key) == 32) && (!result0.isPrivate ==> len(result0.key) == 33)
+//@   ensures err == nil ==> fresh(result0.key) && fresh(result0.chainCode) && fresh(result0.parentFP) && fresh(result0.version)
+//@   ensures err != nil ==> result0 == nil
+//@   modifies nothing
+//@   assert after Decode#1: freshornil($ret)
+//@   assert after Equal#1: len($arg0) == 4 && len($arg1) == 4 && sameobj($arg0, decoded) && $arg0.off == decoded.off + 78
+//@   assert after DoubleHashB#1: len($arg0) == 78 && sameobj($arg0, decoded) && $arg0.off == decoded.off
